@@ -298,34 +298,74 @@ func call() { sched.Yield(sched.SiteCall) }
 
 // runWorkload executes one workload and returns its transcript. A panic of
 // the library is an outcome to compare, not a failure of the check.
-func runWorkload(in wlInput) []byte { return runWorkloadIn(in, nil) }
+func runWorkload(in wlInput) []byte { return runWorkloadIn(in, nil, nil) }
+
+// memRec remembers the caller-owned arrays a workload handed to the library, with their content
+// at the moment the workload was done with them. Nobody has any business writing to them
+// afterwards: the library has no goroutines of its own, so a later change means that it kept a
+// reference to one caller's memory in package-level state and wrote through it on behalf of
+// another caller (a buffer "donated" to a shared free list, say).
+type memRec struct {
+	arrs [][]byte
+	sums []uint64
+}
+
+func (m *memRec) note(arrs ...[]byte) {
+	m.arrs, m.sums = m.arrs[:0], m.sums[:0]
+	for _, a := range arrs {
+		a = a[:cap(a)]
+		m.arrs = append(m.arrs, a)
+		m.sums = append(m.sums, hashBytes(a))
+	}
+}
+
+// changed reports the index of the first array whose content is no longer what it was.
+func (m *memRec) changed() (int, int) {
+	for i, a := range m.arrs {
+		if hashBytes(a) != m.sums[i] {
+			return i, len(a)
+		}
+	}
+	return -1, 0
+}
+
+// bytesSrc is a source that has its data in memory already (the constructors' Bytes() shortcut).
+type bytesSrc struct{ b []byte }
+
+func (s bytesSrc) Read(p []byte) (int, error) { return 0, io.EOF }
+func (s bytesSrc) Bytes() []byte              { return s.b }
 
 // runWorkloadAfter runs a decoy workload of the same kind on another input and then the real
 // one in the SAME caller-owned backing array (the caller is done with the first instance):
 // a result that depends on what was parsed before - e.g. through a memo keyed by buffer
 // address - shows as a transcript difference against the fresh-buffer execution.
-func runWorkloadAfter(in wlInput, decoy *wlInput) []byte {
+func runWorkloadAfter(in wlInput, decoy *wlInput) []byte { return runWorkloadRec(in, decoy, nil) }
+
+func runWorkloadRec(in wlInput, decoy *wlInput, rec *memRec) []byte {
 	if decoy == nil {
-		return runWorkloadIn(in, nil)
+		return runWorkloadIn(in, nil, rec)
 	}
 	n := len(in.data)
 	if len(decoy.data) > n {
 		n = len(decoy.data)
 	}
 	scratch := make([]byte, 0, n+4)
-	runWorkloadIn(*decoy, scratch)
-	return runWorkloadIn(in, scratch)
+	runWorkloadIn(*decoy, scratch, nil)
+	return runWorkloadIn(in, scratch, rec)
 }
 
-func runWorkloadIn(in wlInput, scratch []byte) (out []byte) {
+func runWorkloadIn(in wlInput, scratch []byte, rec *memRec) (out []byte) {
 	t := &tr{}
+	var d, d0 []byte
 	defer func() {
 		if r := recover(); r != nil {
 			t.add("PANIC", panicText(r))
 			out = append([]byte(nil), t.Bytes()...)
 		}
+		if rec != nil {
+			rec.note(d0, d)
+		}
 	}()
-	var d []byte
 	if scratch != nil {
 		d = append(scratch[:0], in.data...) // the caller's reused array
 	} else {
@@ -334,6 +374,7 @@ func runWorkloadIn(in wlInput, scratch []byte) (out []byte) {
 			d[len(d):cap(d)][i] = 0xA7 // whatever was in the caller's buffer before
 		}
 	}
+	d0 = d
 	switch in.kind {
 	case wlCSSLex:
 		l := css.NewLexer(parse.NewInputBytes(d))
@@ -669,6 +710,8 @@ func runWorkloadIn(in wlInput, scratch []byte) (out []byte) {
 			if in.opt&32 != 0 {
 				limit = 200000
 			}
+		} else if in.opt&8 != 0 {
+			z = buffer.NewStreamLexerSize(bytesSrc{d}, in.opt%9) // the data are in memory already: the lexer works on the caller's own array
 		} else {
 			z = buffer.NewStreamLexerSize(&yieldReader{data: d, chunk: 1 + in.opt%6}, in.opt%9)
 		}
@@ -698,6 +741,11 @@ func runWorkloadIn(in wlInput, scratch []byte) (out []byte) {
 			}
 		}
 		t.add("lexeme", z.Lexeme())
+		if in.opt&1 == 1 {
+			// this caller releases everything it took, the last token included
+			t.add("rest", z.Shift())
+			z.Free(z.ShiftLen())
+		}
 		call()
 		z2 := buffer.NewStreamLexer(&yieldReader{data: d, chunk: 7})
 		t.add("second", int(z2.Peek(0)), z2.Err())
